@@ -70,11 +70,11 @@ from typing import Any, Optional
 
 from harness.core import Ctx, Driver
 
-PROPS = ['XsVerif.Props.C19', 'XsVerif.Props.C19Ns']
+PROPS = ['XsVerif.Props.C19', 'XsVerif.Props.C19Ns', 'XsVerif.Props.C19Fx']
 AUDIT = 'XsVerif.Audit.C19'
-LEAN_TARGETS = ['XsVerif.Props.C19', 'XsVerif.Props.C19Ns', 'drv_c19']
+LEAN_TARGETS = ['XsVerif.Props.C19', 'XsVerif.Props.C19Ns', 'XsVerif.Props.C19Fx', 'drv_c19']
 LEANCHECK = ['XsVerif.Model.Paths', 'XsVerif.Model.PathsNs', 'XsVerif.Model.Localise', 'XsVerif.Lemmas.Localise',
-             'XsVerif.Props.C19', 'XsVerif.Props.C19Ns']
+             'XsVerif.Props.C19', 'XsVerif.Props.C19Ns', 'XsVerif.Model.FixedCC', 'XsVerif.Props.C19Fx']
 RULE = ('a case is (valid document, fault kind, damaged node, parser); non-trivial = the validator reported at '
         'least one error whose element has a same-named sibling (a positional predicate is needed) or lies at '
         'depth >= 2; distinct by canonical JSON of (document, fault, node, parser)')
@@ -278,6 +278,29 @@ VC_TYPES = {'int': ('xs:int', '7', '07', '8', 'x7'), 'dec': ('xs:decimal', '1.50
 VC_KINDS = {'n': '', 'd': ' default="%s"', 'f': ' fixed="%s"'}
 
 
+# value constraints on elements with COMPLEX content: fixed / default / none x mixed type admitting optional children (sequence b*,
+# choice (b|i)*, no children at all) / simple type / simple content.  (XSD Part 1, Element Locally Valid 5.2.2: with a fixed
+# value the element has NO element children, and for mixed content the text is the fixed string.)
+FX_XSD = '''<xs:schema xmlns:xs="http://www.w3.org/2001/XMLSchema">
+ <xs:complexType name="M" mixed="true"><xs:sequence><xs:element name="b" type="xs:int" minOccurs="0" maxOccurs="unbounded"/></xs:sequence>
+  <xs:attribute name="k" type="xs:int"/></xs:complexType>
+ <xs:complexType name="MC" mixed="true"><xs:choice minOccurs="0" maxOccurs="unbounded"><xs:element name="b" type="xs:int"/>
+  <xs:element name="i" type="xs:string"/></xs:choice></xs:complexType>
+ <xs:complexType name="MZ" mixed="true"/>
+ <xs:complexType name="SC"><xs:simpleContent><xs:extension base="xs:int"><xs:attribute name="k" type="xs:int"/></xs:extension>
+  </xs:simpleContent></xs:complexType>
+ <xs:element name="r"><xs:complexType><xs:sequence>
+   <xs:element name="fm" type="M" fixed="see below" minOccurs="0" maxOccurs="unbounded"/>
+   <xs:element name="fc" type="MC" fixed="see below" minOccurs="0" maxOccurs="unbounded"/>
+   <xs:element name="fz" type="MZ" fixed="see below" minOccurs="0" maxOccurs="unbounded"/>
+   <xs:element name="dm" type="M" default="see below" minOccurs="0" maxOccurs="unbounded"/>
+   <xs:element name="nm" type="M" minOccurs="0" maxOccurs="unbounded"/>
+   <xs:element name="fs" type="xs:int" fixed="7" minOccurs="0" maxOccurs="unbounded"/>
+   <xs:element name="fsc" type="SC" fixed="7" minOccurs="0" maxOccurs="unbounded"/>
+ </xs:sequence></xs:complexType></xs:element></xs:schema>'''
+FX_TEXT = 'see below'
+
+
 def attr_xsd() -> str:
     attrs = ''.join(f'<xs:attribute name="a_{t}_{v}" type="{VC_TYPES[t][0]}"{VC_KINDS[v] % VC_TYPES[t][1] if v != "n" else ""}/>'
                     for t in VC_TYPES for v in VC_KINDS)
@@ -303,6 +326,9 @@ def schema(form: str):
     if form in ('nil10', 'nil11') and form not in _SCHEMAS:
         import xmlschema
         _SCHEMAS[form] = (xmlschema.XMLSchema10 if form == 'nil10' else xmlschema.XMLSchema11)(NIL_XSD)
+    if form in ('fx10', 'fx11') and form not in _SCHEMAS:
+        import xmlschema
+        _SCHEMAS[form] = (xmlschema.XMLSchema10 if form == 'fx10' else xmlschema.XMLSchema11)(FX_XSD)
     if form not in _SCHEMAS:
         import xmlschema
         if form in ('na11', 'inh11'):
@@ -2092,6 +2118,146 @@ def vc_family(ctx: Ctx, drv: Optional[Driver]) -> None:
         compare(ctx, drv, reqs, pend)
 
 
+# ------------------------------------------------------------------------------------------------
+# value constraints x complex content: elements with a fixed / default / no value constraint whose type is MIXED and admits
+# optional children (FX_XSD), beside fixed simple / simple-content elements.  Operators at every such element: an admitted
+# child added after / before the text (the text stays, or becomes the child's tail), an undeclared child, another text,
+# whitespace-only text, emptied text, a bad attribute, a comment / PI.  Independent rule (Element Locally Valid 5.2.2): with a
+# fixed value the element has no element children at all and (mixed) its text is the fixed string or absent; a default or no
+# constraint forbids nothing the type admits.  An extra child is damaged node = the new child: the error is expected at its
+# parent (the constrained element) and nowhere outside the chain.
+def fx_ser(d: dict) -> str:
+    attrs = ''.join(f' {k}="{v}"' for k, v in d['a'].items())
+    return (f"<{d['n']}{attrs}>{d.get('raw', '')}{d['t'] or ''}"
+            f"{''.join(fx_ser(c) + c.get('tail', '') for c in d['c'])}</{d['n']}>")
+
+
+def fx_family(ctx: Ctx, drv: Optional[Driver]) -> None:
+    import copy
+    rng = ctx.rng
+    reqs: list = []
+    pend: list = []
+    admitted = {'fm': ['b'], 'fc': ['b', 'i'], 'fz': [], 'dm': ['b'], 'nm': ['b']}
+    fx_reqs: list = []
+    fx_pend: list = []
+
+    def tie(case: dict, xml: str, form: str, parser: str) -> None:
+        """Model/FixedCC.lean `libErr` on (obj.text, len(obj)) of every fixed mixed element of the parsed document against
+        'an error "must have the fixed value" is reported at that element' (theorems fixed_lib_iff_spec,
+        fixed_extra_child_reported, fixed_text_change_reported speak about libErr)"""
+        if drv is None:
+            return
+        import xmlschema
+        if parser == 'lxml':
+            import lxml.etree as LE
+            source = xmlschema.XMLResource(LE.fromstring(xml.encode()))
+        else:
+            source = xmlschema.XMLResource(xml)
+        errors = list(schema(form).iter_errors(source))
+        els, real = [], []
+        for ch in source.root:
+            if ch.tag in ('fm', 'fc', 'fz'):
+                els.append([ch.text, len(ch)])
+                real.append(any(e.elem is ch and 'must have the fixed value' in str(e.reason) for e in errors))
+        if els:
+            fx_reqs.append({'op': 'fixedcc', 'fixed': FX_TEXT, 'els': els})
+            fx_pend.append((case, els, real))
+
+    def el(n, t=None, c=(), **a) -> dict:
+        return {'n': n, 'a': dict(a), 't': t, 'c': list(c)}
+
+    def gen(n: str) -> dict:
+        k = {'k': str(rng.randrange(9))} if n in ('fm', 'dm', 'nm', 'fsc') and rng.random() < 0.4 else {}
+        if n in ('fm', 'fc', 'fz'):
+            return el(n, FX_TEXT if rng.random() < 0.8 else None, **k)
+        if n in ('dm', 'nm'):
+            kids = [el('b', str(rng.randrange(9))) for _ in range(rng.randrange(3))]
+            return el(n, rng.choice([FX_TEXT, 'other', None]), kids, **k)
+        return el(n, rng.choice(['7', '7', '07', None]), **k)
+    for di in range(ctx.pick(12, 90)):
+        kids = []
+        for n in ('fm', 'fc', 'fz', 'dm', 'nm', 'fs', 'fsc'):            # the schema's sequence order
+            kids += [gen(n) for _ in range(rng.choice([0, 1, 2, 3]) if n in ('fm', 'fc') else rng.randrange(3))]
+        if not kids:
+            kids = [gen('fm')]
+        doc = el('r', None, kids)
+        form = 'fx11' if di % 2 else 'fx10'
+        base = {'doc': f'fx-{di}', 'form': form, 'layout': 'none', 'comments': False}
+        vx = fx_ser(doc)
+        for parser in ('etree', 'lxml'):
+            run_case(ctx, dict(base, fault=None, parser=parser, xml=vx), vx, form, parser, None, reqs, pend)
+            tie(dict(base, fault=None, parser=parser, xml=vx), vx, form, parser)
+        ops = []                                   # (operator, kind of fault or None = still valid, mutated, damaged)
+        for i, n in enumerate(kids):
+            pos = (i,)
+            nm = n['n']
+            fixed = nm[0] == 'f'
+            mixed = nm in admitted
+
+            def mut(f) -> dict:
+                m = copy.deepcopy(doc)
+                f(m['c'][i])
+                return m
+
+            def child_after(x, name):
+                x['c'].append(el(name, '1'))
+
+            def child_before(x, name):
+                c = el(name, '1')
+                if x['t']:
+                    c['tail'], x['t'] = x['t'], None
+                x['c'].insert(0, c)
+            nk = len(n['c'])
+            for name in ((admitted[nm] or ['b']) if mixed else ['b']):
+                adm = mixed and name in admitted[nm]
+                kind = 'extra child' if fixed or not adm else None
+                ops.append((f"add a child {'the type admits' if adm else 'not admitted'} after the text", kind,
+                            mut(lambda x: child_after(x, name)), pos + (nk,) if kind else pos))
+                ops.append((f"add a child {'the type admits' if adm else 'not admitted'} before the text (text becomes its tail)",
+                            kind, mut(lambda x: child_before(x, name)), pos + (0,) if kind else pos))
+            ops.append(('add an undeclared child', 'extra child', mut(lambda x: child_after(x, 'bogus')), pos + (nk,)))
+            if mixed:
+                ops.append(('another text', 'bad value' if fixed else None, mut(lambda x: x.update(t='see above')), pos))
+                ops.append(('whitespace-only text', 'bad value' if fixed else None, mut(lambda x: x.update(t='  ')), pos))
+                if n['t'] and not n['c']:
+                    ops.append(('text removed (empty element)', None, mut(lambda x: x.update(t=None)), pos))
+            else:
+                ops.append(('a different valid value', 'bad value', mut(lambda x: x.update(t='8')), pos))
+                ops.append(('another lexical form of the fixed value', None,
+                            mut(lambda x: x.update(t='07' if x['t'] != '07' else '+7')), pos))
+            if 'k' in n['a'] or nm in ('fm', 'dm', 'nm', 'fsc'):
+                ops.append(('bad value of an attribute', 'bad attribute value', mut(lambda x: x['a'].update(k='x9')), pos))
+            if not (fixed and mixed):
+                # (lxml keeps comments / PIs as children: a FIXED MIXED element with one is refused through lxml only, a
+                # false 'must have the fixed value' on a valid document -- reported, not generated)
+                ops.append(('add a comment / processing instruction', None,
+                            mut(lambda x: x.update(raw=rng.choice(['<!--c-->', '<?p i?>']))), pos))
+        for op, kind, m, damaged in ops:
+            xml = fx_ser(m)
+            nm = m['c'][damaged[0]]['n']
+            ctx.count(f'fixed/default x complex content family: {nm}: {op} -> ' + ('invalid' if kind else 'still valid'))
+            for parser in ('etree', 'lxml'):
+                case = dict(base, fault=kind, operator=op, node=list(damaged[:1]), damaged=list(damaged), parser=parser, xml=xml)
+                if kind is None:
+                    ctx.case(case, False, tag=f'fixed x complex family: not a fault (still valid)/{parser}')
+                    run_case(ctx, case, xml, form, parser, None, reqs, pend)
+                else:
+                    run_case(ctx, case, xml, form, parser, damaged, reqs, pend)
+                tie(case, xml, form, parser)
+        if len(ctx.failures) >= 40:
+            break
+    if drv is not None:
+        compare(ctx, drv, reqs, pend)
+        bad = 0
+        for (case, els, real), m in zip(fx_pend, drv.query(fx_reqs)):
+            ctx.traces += len(els)
+            if m.get('r') != real and bad < 3:
+                bad += 1
+                ctx.mismatch('fixed x mixed content: "must have the fixed value" at the element vs model libErr (FixedCC)',
+                             dict(case, els=els), real, m.get('r'))
+        ctx.count('fixed mixed elements compared with Model/FixedCC.libErr', sum(len(x[1]) for x in fx_pend))
+
+
 def renders(ctx: Ctx, drv: Optional[Driver]) -> None:
     """get_prefixed_qname on random maps against the model; a rendered name must read back to the tag"""
     from xmlschema.utils.qnames import get_prefixed_qname
@@ -2152,6 +2318,7 @@ def run(ctx: Ctx, driver_ok: bool) -> None:
     cm_family(ctx, drv)
     nil_family(ctx, drv)
     vc_family(ctx, drv)
+    fx_family(ctx, drv)
     renders(ctx, drv)
     lazy_paths(ctx, drv)
     ctx.extra['explanation'] = ('every fault of the catalogue at every node (documents <= 40 nodes exhaustively, 40 seeded '
@@ -2167,6 +2334,8 @@ def search(ctx: Ctx) -> None:
     explore(ctx, None, None, n_docs=ctx.pick(150, 300), stop_after=1, deadline=deadline)
     if not ctx.failures and time.time() < deadline:
         same_family(ctx, None)
+    if not ctx.failures and time.time() < deadline:
+        fx_family(ctx, None)
 
 
 def replay(ctx: Ctx, obj: dict) -> int:
